@@ -905,12 +905,14 @@ abstracted to ONE object id, `owner`: every `initialise_keymap()` (re-)registers
 runs on, so all pointers of a parser refer to the same object.  `parse` / `parameter_info` go through these pointers: they
 read and write the members of `owner`, not necessarily those of the object they are called on.
 Copy constructor (ParsingObject.cxx:34): members copied, flag false, parser EMPTY.  `operator=` (:38): members copied, flag
-false, parser untouched.  A destroyed object stays in the heap as `alive := false`; going through a pointer to it is `uaf`. -/
+false, parser untouched.  The parse status of a `KeyParser` belongs to the parser, not to the members: `vals.parsing` is kept
+`false` and the status of the parser of each object is the field `status`.  A destroyed object stays in the heap as `alive := false`; going through a pointer to it is `uaf`. -/
 
 structure PObj where
   vals : KP                    -- the data members (as the key table of the class, with their current values)
   init : Bool := false         -- keymap_is_initialised
   owner : Option Nat := none   -- the object whose members the pointers in `parser` refer to (none: parser without keys)
+  status : Bool := false       -- `parser.status == parsing` (left set when `error()` threw in the middle of a text)
   alive : Bool := true
   deriving Repr, DecidableEq, Inhabited
 
@@ -940,6 +942,27 @@ def Heap.live (h : Heap) (i : Nat) : Bool := match h[i]? with | some o => o.aliv
 def Heap.ensureInit (h : Heap) (i : Nat) : Heap :=
   h.modify i fun o => if o.init then o else { o with init := true, owner := some i }
 
+/-- the object that the KeyParser pointers of object `i` refer to, if it is still there (`none`: dangling, or no keys) -/
+def Heap.target (h : Heap) (i : Nat) : Option (Nat × PObj) :=
+  match h[i]? with
+  | some o =>
+    match o.owner with
+    | some t =>
+      match h[t]? with
+      | some ot => if ot.alive then some (t, ot) else none
+      | none => none
+    | none => none
+  | none => none
+
+def Heap.statusOf (h : Heap) (i : Nat) : Bool := match h[i]? with | some o => o.status | none => false
+
+/-- `parser.parse(text)` of object `i` whose pointers refer to the members `ot` of object `t` -/
+def Heap.storeParse (h : Heap) (i t : Nat) (ot : PObj) (text : Str) : Heap × PAns :=
+  let r := ({ ot.vals with parsing := h.statusOf i } : KP).parse text
+  let h1 := h.set t { ot with vals := { r.kp with parsing := false } }
+  let h2 := h1.modify i fun x => { x with status := r.kp.parsing }
+  (h2, .parsed r.tag ((h2[i]?.map (·.vals)).getD ot.vals))
+
 /-- one operation on the heap of objects of a class whose default-constructed members are `tmpl` -/
 def Heap.step (tmpl : KP) (h : Heap) : POp → Heap × PAns
   | .new => (h ++ [{ vals := tmpl }], .id h.length)
@@ -957,33 +980,16 @@ def Heap.step (tmpl : KP) (h : Heap) : POp → Heap × PAns
     if !h.live i then (h, .bad)
     else
       let h := h.ensureInit i
-      match h[i]? with
-      | some o =>
-        match o.owner with
-        | some t =>
-          match h[t]? with
-          | some ot =>
-            if !ot.alive then (h, .uaf)
-            else
-              let r := ot.vals.parse text
-              let h := h.set t { ot with vals := r.kp }
-              (h, .parsed r.tag ((h[i]?.map (·.vals)).getD o.vals))
-          | none => (h, .uaf)
-        | none => (h, .bad)
-      | none => (h, .bad)
+      match h.target i with
+      | some (t, ot) => h.storeParse i t ot text
+      | none => (h, .uaf)
   | .info i =>
     if !h.live i then (h, .bad)
     else
       let h := h.ensureInit i
-      match h[i]? with
-      | some o =>
-        match o.owner with
-        | some t =>
-          match h[t]? with
-          | some ot => if !ot.alive then (h, .uaf) else (h, .text ot.vals.parameterInfo)
-          | none => (h, .uaf)
-        | none => (h, .bad)
-      | none => (h, .bad)
+      match h.target i with
+      | some (_, ot) => (h, .text ot.vals.parameterInfo)
+      | none => (h, .uaf)
 
 /-- a history of operations from the empty heap: final heap and the answers -/
 def Heap.run (tmpl : KP) : Heap → List POp → Heap × List PAns
